@@ -63,8 +63,31 @@ def enc_epath(path):
     return bytes([len(body) // 2]) + body
 
 
+def cm_bytes(c):
+    """[Large] Forward Open / Forward Close to the Connection Manager @6/1, by hand from the layout"""
+    head = enc_epath([["c", 6], ["i", 1]]) + bytes([c["prio"], c["ticks"]])
+    if c["k"] == "fc":
+        cp = b"".join(enc_seg(x) for x in c["cpath"])
+        return (b"\x4e" + head + struct.pack("<HHI", c["serial"], c["vendor"], c["oserial"])
+                + bytes([len(cp) // 2, 0]) + cp)
+    f = "<I" if c["large"] else "<H"
+    return ((b"\x5b" if c["large"] else b"\x54") + head
+            + struct.pack("<IIHHI", c["otid"], c["toid"], c["serial"], c["vendor"], c["oserial"]) + bytes([c["mult"], 0, 0, 0])
+            + struct.pack("<I", c["otrpi"]) + struct.pack(f, c["otncp"]) + struct.pack("<I", c["torpi"]) + struct.pack(f, c["toncp"])
+            + bytes([c["tct"]]) + enc_epath(c["cpath"]))
+
+
+def cm_line(c):
+    if c["k"] == "fc":
+        return f"fc,{c['prio']},{c['ticks']},{c['serial']},{c['vendor']},{c['oserial']},{lc.path_line(c['cpath'])}"
+    return (f"fo,{1 if c['large'] else 0},{c['prio']},{c['ticks']},{c['otid']},{c['toid']},{c['serial']},{c['vendor']},"
+            f"{c['oserial']},{c['mult']},{c['otrpi']},{c['otncp']},{c['torpi']},{c['toncp']},{c['tct']},{lc.path_line(c['cpath'])}")
+
+
 def cip_bytes(body):
     """bytes of the embedded CIP request"""
+    if "cm" in body:
+        return cm_bytes(body["cm"])
     if "req" in body:
         from cpppo.server.enip import logix
         return bytes(logix.Logix.produce(lc.req_dotdict(body["req"])))
@@ -145,6 +168,8 @@ def body_line(body):
     w = body["wrap"]
     wl = "d" if w is None else f"u_{w['cls']}_{w['ins']}_{w['prio']}_{w['ticks']}_{route_line(w['route'])}"
     raw = lc.hexs(cip_bytes(body))
+    if "cm" in body:
+        return f"S^{head}^{wl}^c^{raw}^{cm_line(body['cm'])}"
     if "req" in body:
         return f"S^{head}^{wl}^q^{raw}^{lc.req_line(body['req'])}"
     u = body["unk"]
@@ -152,7 +177,7 @@ def body_line(body):
 
 
 def frame_line(fr):
-    return f"{fr['sess']}~{fr['status']}~{fr['ctx']}~{fr['opt']}~{body_line(fr['body'])}"
+    return f"{fr['sess']}~{fr['status']}~{fr['ctx']}~{fr['opt']}~{len(payload_bytes(fr['body']))}~{body_line(fr['body'])}"
 
 
 # --------------------------------------------------------------------------------------------------
@@ -250,7 +275,8 @@ class Rig:
     def __init__(self, case):
         import cpppo
         from cpppo.server import network
-        from cpppo.server.enip import main as emain, logix, ucmm, parser
+        from cpppo.server.enip import main as emain, logix, ucmm, parser, device
+        self.device = device
         self.cpppo, self.network, self.emain, self.logix, self.ucmm, self.parser = cpppo, network, emain, logix, ucmm, parser
         self.dev = lc.Device(case)           # device.lookup_reset(); logix.setup_reset(); logix.setup( tags )
         case["addrs"] = {k: list(v) for k, v in self.dev.addrs.items()}
@@ -266,8 +292,10 @@ class Rig:
             attrs["route"] = {f"{p}/{l}": f"{host}:{port}" for p, l in self.routes}
         self.ucmm_class = type("UCMM_case", (ucmm.UCMM,), attrs) if attrs else ucmm.UCMM
         ucmm.UCMM.sessions.clear()
+        device.Connection_Manager.forwards.clear()      # class-level: survives device.lookup_reset()
         self.saved_random = ucmm.random
-        ucmm.random = ScriptedRandom(case["rand"])
+        self.saved_dev_random = device.random
+        ucmm.random = device.random = ScriptedRandom(case["rand"])     # session handles and connection IDs
         self.saved_recv = network.recv
         emain.connections.clear()
         control = cpppo.apidict(timeout=1.0)
@@ -275,6 +303,8 @@ class Rig:
         control["disable"] = False
         control["latency"] = 0.01
         self.kwds = {"server": cpppo.dotdict({"control": control}), "UCMM_class": self.ucmm_class}
+        if case.get("size") is not None:
+            self.kwds["size"] = case["size"]           # enip_server --size
         Target.kwds = self.kwds
 
     def close(self):
@@ -294,6 +324,7 @@ class Rig:
                     pass
             Target.quiesce()
         self.ucmm.random = self.saved_random
+        self.device.random = self.saved_dev_random
         self.network.recv = self.saved_recv
         self.dev.close()
 
@@ -385,6 +416,8 @@ class Rig:
             if data.response.enip.status:
                 end = "closed"
                 break
+        if end == "open":                # EOF: enip_srv_tcp hands an empty request to the processor
+            self.logix.process(ADDR, data=cpppo.dotdict(), **self.kwds)
         return sent, n, end
 
 
@@ -492,6 +525,9 @@ def rand_unknown(rng, tags):
     return {"code": code, "path": path, "tail": [rng.randrange(256) for _ in range(rng.choice([0, 0, 2, 4, 7]))]}
 
 
+SERIALS = []          # connection serials used by the Forward Opens of the case being generated
+
+
 def rand_send(rng, tags, route_cfg, fail):
     body = {"k": "send", "unit": rng.random() < 0.05, "iface": rng.choice([0, 0, 0, 7]),
             "timeout": rng.choice([5, 0, 65535]), "wrap": rand_wrap(rng, route_cfg, fail * 0.25, fail * 0.25)}
@@ -508,6 +544,10 @@ def rand_send(rng, tags, route_cfg, fail):
             {"op": "mu", "path": [["c", 2], ["i", 9]], "reqs": [{"op": "rt", "path": [["s", tags[0]["name"]]], "n": 1}]},
         ])
         return body
+    if rng.random() < 0.07:
+        # the Connection Manager's own services, bare or in an Unconnected Send
+        body["cm"] = rand_cm(rng, SERIALS)
+        return body
     body["req"] = rand_req(rng, tags, multi=True, invalid=0.2)
     if rng.random() < 0.06 + fail * 0.3:
         # attribute services (and bundles holding them) addressed to an unknown Class / Instance / Attribute
@@ -523,6 +563,32 @@ def rand_send(rng, tags, route_cfg, fail):
     if body["req"]["op"] == "rf" and body["wrap"] is None:      # a bare 0x52 is read as an Unconnected Send
         body["wrap"] = {"cls": 6, "ins": 1, "prio": 5, "ticks": 157, "route": []}
     return body
+
+
+def ncp(large, typ, size, variable=1, prio=0, redundant=0, reserved=0):
+    v = (variable << 9) + (prio << 10) + (typ << 13) + (redundant << 15)
+    if large:
+        return ((v << 16) + size + (reserved << 16)) & 0xffffffff
+    return (v + size + (reserved << 12)) & 0xffff
+
+
+def rand_cm(rng, serials):
+    """[Large] Forward Open (all connection types, size 0, reserved bits, re-opened IDs) / Forward Close"""
+    if serials and rng.random() < 0.25:
+        return {"k": "fc", "prio": 5, "ticks": 157, "serial": rng.choice(serials + [0xfffe]), "vendor": 0x1234,
+                "oserial": rng.randrange(1 << 32), "cpath": [["c", 2], ["i", 1]]}
+    large = rng.random() < 0.5
+    serial = rng.choice([1, 2, 7, 0xffff, rng.randrange(65536)])
+    serials.append(serial)
+    size = rng.choice([0, 1, 500, 511, 4000, 0xffff] if large else [0, 1, 500, 511])
+    return {"k": "fo", "large": large, "prio": rng.choice([5, 0, 255]), "ticks": rng.choice([157, 0]),
+            "otid": rng.choice([1, 1, 2, 0, 0xffffffff]), "toid": rng.choice([2, 0x12345678]), "serial": serial,
+            "vendor": rng.choice([0x1234, 0, 0xffff]), "oserial": rng.randrange(1 << 32), "mult": rng.choice([0, 1, 7]),
+            "otrpi": rng.choice([1000, 0, 0xffffffff]), "torpi": rng.choice([2000, 1]),
+            "otncp": ncp(large, rng.choice([0, 1, 2, 2, 3]), size, rng.randrange(2), rng.randrange(4), rng.randrange(2),
+                         rng.choice([0, 0, 1])),
+            "toncp": ncp(large, rng.choice([0, 1, 1, 2, 3]), rng.choice([size, 100]), rng.randrange(2), rng.randrange(4)),
+            "tct": rng.choice([0xa3, 0x01, 0]), "cpath": rng.choice([[["c", 2], ["i", 1]], [["c", 0x93], ["i", 1]], []])}
 
 
 def rand_lost_attr(rng, tags):
@@ -579,12 +645,14 @@ def rand_case(rng, nmax=40, big=False):
     n = min(n, nmax)
     used = set()
     frames = []
+    del SERIALS[:]
     if rng.random() < 0.7:
         frames.append({"sess": 0, "status": 0, "ctx": rand_ctx(rng, used), "opt": 0,
                        "body": {"k": "reg", "proto": 1, "opts": 0, "extra": []}})
     while len(frames) < n:
         frames.append(rand_frame(rng, tags, route, used, fail, end))
     nreg = sum(1 for f in frames if f["body"]["k"] == "reg")
+    nreg += sum(2 for f in frames if "cm" in f["body"] and f["body"]["cm"]["k"] == "fo" and rng.random() < 0.9)
     rand = []
     for _ in range(nreg):
         while rng.random() < 0.2:
@@ -598,8 +666,13 @@ def rand_case(rng, nmax=40, big=False):
     if cuts == "rand":
         total = sum(len(frame_bytes(f)) for f in frames)
         cuts = sorted(rng.randrange(1, max(total, 2)) for _ in range(rng.randint(1, 6)))
-    return {"budget": rng.choice([488, 488, 488, 100, 24]), "tags": tags, "route": route, "rand": rand, "cuts": cuts,
+    case = {"budget": rng.choice([488, 488, 488, 100, 24]), "tags": tags, "route": route, "rand": rand, "cuts": cuts,
             "frames": frames}
+    if rng.random() < 0.3:
+        # a request size limit at, just below or just above the payload of one of the requests
+        f = rng.choice(frames)
+        case["size"] = max(0, len(payload_bytes(f["body"])) + rng.choice([0, 0, 0, -1, 1, 60]))
+    return case
 
 
 TABLE = [[1, 9]]                     # the routing table used by the routed cases: port 1, link 9 --> the route's device
@@ -673,7 +746,7 @@ def rand_routed_case(rng):
     tags = lg.rand_tags(rng)
     route = rng.choice([None, None, False, [[1, 0]], [[2, 5]]])
     used = set()
-    kinds = None
+    del SERIALS[:]
     sessions = []
     nreq = 0
     for _ in range(rng.randint(1, 6)):
@@ -684,7 +757,7 @@ def rand_routed_case(rng):
         for _ in range(rng.choice([1, 1, 2, 3, 5])):
             r = rng.random()
             body = rand_send(rng, tags, route, rng.choice([0.0, 0.0, 0.3]))
-            if r < 0.7:      # forward it
+            if r < 0.7 and "cm" not in body:      # forward it (the Connection Manager's own services stay local)
                 rest = rng.choice([[], [], [list(x) for x in route] if route else [[1, 0]]])
                 if rng.random() < 0.08:
                     rest = [[3, 3]]
@@ -697,6 +770,7 @@ def rand_routed_case(rng):
             nreq += 1
         sessions.append(frames)
     nreg = sum(1 for fs in sessions for f in fs if f["body"]["k"] == "reg")
+    nreg += sum(2 for fs in sessions for f in fs if "cm" in f["body"])
     rand = []
     for _ in range(nreg + nreq):
         if rng.random() < 0.15:
@@ -722,6 +796,9 @@ def small_cases():
             b["unk"] = unk
         return b
     rdA = {"op": "rt", "path": [["s", "A"]], "n": 2}
+
+    def send_cm(cm, wrap=None):
+        return {"k": "send", "unit": False, "iface": 0, "timeout": 5, "wrap": wrap, "cm": cm}
     kinds = {
         "reg": {"k": "reg", "proto": 1, "opts": 0, "extra": []},
         "unreg": {"k": "unreg", "data": []},
@@ -743,6 +820,14 @@ def small_cases():
         "usend-router": send(rdA, wrap=dict(usend, cls=2)),
         "usend-identity": send(rdA, wrap=dict(usend, cls=1)),
         "usend-none": send(rdA, wrap=dict(usend, cls=9, ins=9)),
+        "fo": send_cm({"k": "fo", "large": False, "prio": 5, "ticks": 157, "otid": 1, "toid": 2, "serial": 7, "vendor": 0x1234,
+                       "oserial": 0xdeadbeef, "mult": 1, "otrpi": 1000, "torpi": 2000, "otncp": ncp(False, 2, 500),
+                       "toncp": ncp(False, 1, 500), "tct": 0xa3, "cpath": [["c", 2], ["i", 1]]}),
+        "lfo": send_cm({"k": "fo", "large": True, "prio": 5, "ticks": 157, "otid": 1, "toid": 2, "serial": 8, "vendor": 0x1234,
+                        "oserial": 0xdeadbeef, "mult": 1, "otrpi": 1000, "torpi": 2000, "otncp": ncp(True, 0, 4000),
+                        "toncp": ncp(True, 2, 4000), "tct": 0xa3, "cpath": [["c", 2], ["i", 1]]}, wrap=usend),
+        "fc": send_cm({"k": "fc", "prio": 5, "ticks": 157, "serial": 8, "vendor": 0x1234, "oserial": 0xdeadbeef,
+                       "cpath": [["c", 2], ["i", 1]]}),
         "items-1": {"k": "items", "unit": False, "iface": 0, "timeout": 5, "items": [[0, []]]},
         "items-0": {"k": "items", "unit": False, "iface": 0, "timeout": 5, "items": []},
         "xcmd": {"k": "xcmd", "cmd": 0x99, "data": []},
@@ -764,6 +849,12 @@ def small_cases():
     for ka in ("ls", "rt", "reg", "unk-svc", "unreg"):
         yield {"budget": 488, "tags": tags, "route": None, "rand": [5], "cuts": "one",
                "frames": [frame(0, kinds[ka], status=7), frame(1, kinds["rt"])]}
+    # a request size limit exactly at, one below and one above the payload of each kind of request
+    for ka, a in kinds.items():
+        n = len(payload_bytes(a))
+        for size in sorted({max(n - 1, 0), n, n + 1}):
+            yield {"budget": 488, "tags": tags, "route": None, "rand": [77, 78, 79], "cuts": "one", "size": size,
+                   "frames": [frame(0, a), frame(1, kinds["rt"])]}
 
 
 # --------------------------------------------------------------------------------------------------
@@ -796,6 +887,20 @@ def parse_send_payload(p):
         items.append((t, p[pos + 4:pos + 4 + n]))
         pos += 4 + n
     return iface, timeout, items if pos == len(p) else None
+
+
+def service_of(body):
+    if "unk" in body:
+        return body["unk"]["code"]
+    if "cm" in body:
+        return 0x4e if body["cm"]["k"] == "fc" else (0x5b if body["cm"]["large"] else 0x54)
+    return SVC[body["req"]["op"]]
+
+
+def op_name(body):
+    if "cm" in body:
+        return "Forward Close" if body["cm"]["k"] == "fc" else ("Large Forward Open" if body["cm"]["large"] else "Forward Open")
+    return body["req"]["op"]
 
 
 def expectation(case, body):
@@ -835,6 +940,8 @@ def rand_suffices(case):
             b = fr["body"]
             if b["k"] == "reg":
                 need += 1
+            elif "cm" in b and b["cm"]["k"] == "fo":
+                need += 2
             elif b["k"] == "send" and b["wrap"] and b["wrap"]["route"] and list(b["wrap"]["route"][0]) in routes:
                 need += 1
     return len([v for v in case["rand"] if v]) >= need
@@ -889,6 +996,21 @@ def oracle_run(case, frames, replies, label):
             if k < len(idx):
                 return f"{label}: reply to request #{idx[k]} after Unregister Session (request #{i})"
             return None
+        if case.get("size") is not None and len(payload_bytes(body)) > int(case["size"]):
+            # larger than the server is configured to accept: the statement does not decide; whatever is sent for it
+            # must be its own one reply
+            if mine:
+                r = decoded[k]
+                k += 1
+                if r["cmd"] != command_of(body):
+                    return f"{label}: reply to #{i} has command {r['cmd']:#x}, request {command_of(body):#x}"
+                if r["status"] != 0:
+                    ended = True
+            elif k == len(idx):
+                return None
+            else:
+                ended = True
+            continue
         # frames outside the simulator's grammar: the statement speaks of well-formed requests only
         malformed = kind in ("regshort", "xcmd", "items")
         if not mine:
@@ -923,7 +1045,7 @@ def oracle_run(case, frames, replies, label):
                 return f"{label}: {kind} request #{i} answered with status {r['status']:#x}"
         else:
             exp = expectation(case, body)
-            svc = body["unk"]["code"] if "unk" in body else SVC[body["req"]["op"]]
+            svc = service_of(body)
             good = None
             if r["status"] == 0:
                 sp = parse_send_payload(r["payload"])
@@ -939,7 +1061,7 @@ def oracle_run(case, frames, replies, label):
             if exp == "refuse" and r["status"] == 0:
                 return f"{label}: unsupported/unroutable request #{i} answered with encapsulation status 0"
             if exp == "reply" and r["status"] != 0:
-                return f"{label}: supported request #{i} ({body['req']['op']}) answered with status {r['status']:#x}"
+                return f"{label}: supported request #{i} ({op_name(body)}) answered with status {r['status']:#x}"
             if r["status"] == 0 and good:
                 return f"{label}: reply to request #{i}: {good}"
         if r["status"] != 0:
@@ -952,7 +1074,8 @@ def oracle_run(case, frames, replies, label):
 class C06(Suite):
     id = "C06"
     props_module = "Cpppo.Props.C06"
-    rule = ("exhaustive: every frame kind alone (3 route personalities) and every ordered pair of 29 kinds; random: "
+    rule = ("exhaustive: every frame kind alone (3 route personalities), every ordered pair of 32 kinds, each kind under a "
+            "request size limit of its payload length -1/0/+1; [Large] Forward Open / Forward Close in random sessions; random: "
             "devices of 1-5 tags, sessions of 1..40 requests of all kinds (Register, List*, Legacy, Read/Write Tag "
             "[Fragmented], Get/Set Attribute Single, Get Attributes All, Multiple Service Packets, direct and in an "
             "Unconnected Send, ~0-50% failing: unknown services, unknown targets, refused routes, bad send paths, "
@@ -966,9 +1089,10 @@ class C06(Suite):
             "state-changing request; distinct by case")
     assumptions = ["frames are complete (segmentation and truncation are C02's subject); connections one after the other, "
                    "never concurrent (C09); forwarding one hop, with a timeout the route's device always meets",
-                   "embedded requests address tag-holding objects or nothing that exists (built-in Identity/TCPIP/Connection "
-                   "Manager services, Forward Open and connected (SendUnitData with a connection id) transport are "
-                   "outside the model); service codes < 0x80",
+                   "embedded requests address tag-holding objects or nothing that exists, or are the Connection Manager's own "
+                   "[Large] Forward Open / Forward Close (other services of the built-in Identity/TCPIP/Connection "
+                   "Manager objects and connected transport -- SendUnitData with a connection id -- are outside the "
+                   "model); service codes < 0x80",
                    "the random source of session handles is modelled as an arbitrary stream (scripted in the check)"]
     trusted_extra = ["the byte encoding of request frames is done by the harness (by hand from the layout; the embedded "
                      "tag request by cpppo's Logix.produce); decoding of request bytes is not modelled (C01)"]
@@ -1012,11 +1136,13 @@ class C06(Suite):
         routes = route_line(c.get("routes") or [])
         rand = ",".join(map(str, c["rand"])) if c["rand"] else "-"
         sessions = "!".join(";".join(frame_line(fr) for fr in frames) if frames else "-" for frames in sessions_of(c))
-        return f"sess 1 {route} {routes} {c['budget']} {c['tagline']} {rand} {sessions}"
+        size = "-" if c.get("size") is None else str(c["size"])
+        return f"sess 1 {route} {routes} {size} {c['budget']} {c['tagline']} {rand} {sessions}"
 
     def known_key(self, c):
         return json.dumps({"budget": c["budget"], "tags": c["tags"], "route": c["route"], "rand": c["rand"],
-                           "routes": c.get("routes") or [], "sessions": sessions_of(c)}, sort_keys=True)
+                           "routes": c.get("routes") or [], "size": c.get("size"), "sessions": sessions_of(c)},
+                          sort_keys=True)
 
     def oracle(self, c, out):
         if out.startswith("harness-exception"):
